@@ -221,7 +221,18 @@ func (f *Frame) leafLocs(a *Addr) []leafLoc {
 
 func (f *Frame) load(a *Addr, st *State) *Val {
 	if _, isArr := a.T.Underlying().(*types.Array); isArr {
-		f.E.fail("load of whole array value not supported (%s)", a.T)
+		if a.Kind != AElem {
+			f.E.fail("load of whole array value not supported here (%s)", a.T)
+		}
+		inner, _ := arrInner(a.T)
+		v := &Val{K: VArr, T: a.T, Off: a.Idx}
+		for _, l := range leavesOf(inner, f.E.Mode) {
+			key := "M$" + typeKey(inner) + l.path
+			cur := st.Get(key, ArrayS(IntS, ArrayS(IntS, l.sort)))
+			f.E.noteVars(cur)
+			v.Snap = append(v.Snap, Select(cur, a.Base))
+		}
+		return v
 	}
 	ls := f.leafLocs(a)
 	ts := make([]*Term, len(ls))
@@ -252,6 +263,24 @@ func (f *Frame) load(a *Addr, st *State) *Val {
 }
 
 func (f *Frame) store(a *Addr, v *Val, st *State) {
+	if _, isArr := a.T.Underlying().(*types.Array); isArr {
+		inner, n := arrInner(a.T)
+		if a.Kind != AElem || v.K != VArr || n > 64 {
+			f.E.fail("store of whole array value not supported here (%s)", a.T)
+		}
+		for k, l := range leavesOf(inner, f.E.Mode) {
+			key := "M$" + typeKey(inner) + l.path
+			sort := ArrayS(IntS, ArrayS(IntS, l.sort))
+			cur := st.Get(key, sort)
+			f.E.noteVars(cur)
+			row := Select(cur, a.Base)
+			for i := int64(0); i < n; i++ {
+				row = Store(row, Add(a.Idx, IntLit(i)), Select(v.Snap[k], Add(v.Off, IntLit(i))))
+			}
+			st.Set(key, sort, f.E.name(Store(cur, a.Base, row), f.prefix+"s$"+key))
+		}
+		return
+	}
 	ls := f.leafLocs(a)
 	var vs []*Term
 	if v.K == VFunc {
@@ -709,6 +738,23 @@ func (f *Frame) instr(in ssa.Instruction) {
 	case *ssa.Index:
 		if b, ok := in.X.Type().Underlying().(*types.Basic); ok && b.Info()&types.IsString != 0 {
 			f.stringIndex(in, in.X, in.Index)
+		} else if x := f.val(in.X); x.K == VArr {
+			at := in.X.Type().Underlying().(*types.Array)
+			i := f.val(in.Index).X
+			f.bounds("nopanic.index", in.Pos(), And(Ge(i, IntLit(0)), Lt(i, IntLit(at.Len()))))
+			inner, stride := arrInner(at.Elem())
+			if _, nested := at.Elem().Underlying().(*types.Array); nested {
+				f.vals[in] = &Val{K: VArr, T: in.Type(), Snap: x.Snap, Off: Add(x.Off, Mul(i, IntLit(stride)))}
+			} else {
+				ts := make([]*Term, len(x.Snap))
+				for k := range x.Snap {
+					ts[k] = Select(x.Snap[k], Add(x.Off, i))
+				}
+				v := valFromLeaves(inner, f.E.Mode, ts)
+				f.set(in, v)
+				f.assumeWF(f.vals[in])
+				f.assumeAllocated(f.vals[in])
+			}
 		} else {
 			f.E.fail("array value index not supported")
 		}
@@ -825,8 +871,9 @@ func (f *Frame) alloc(in *ssa.Alloc) {
 		return
 	case *types.Array:
 		base := f.newRef("arr_" + in.Name())
-		f.zeroBacking(base, u.Elem())
-		f.vals[in] = &Val{K: VAddr, T: in.Type(), Addr: &Addr{Kind: AElem, Base: base, Idx: IntLit(0), Key: "M$" + typeKey(u.Elem()), T: t, ArrLen: u.Len()}}
+		inner, _ := arrInner(t)
+		f.zeroBacking(base, inner)
+		f.vals[in] = &Val{K: VAddr, T: in.Type(), Addr: &Addr{Kind: AElem, Base: base, Idx: IntLit(0), Key: "M$" + typeKey(inner), T: t, ArrLen: u.Len()}}
 		return
 	}
 	if in.Heap {
@@ -925,6 +972,11 @@ func (f *Frame) indexAddr(in *ssa.IndexAddr) *Val {
 			f.bounds("nopanic.index", in.Pos(), And(Ge(i, IntLit(0)), Lt(i, IntLit(at.Len()))))
 			if x.Addr.Kind != AElem {
 				f.E.fail("array inside struct not supported")
+			}
+			if ea, nested := at.Elem().Underlying().(*types.Array); nested {
+				// nested arrays are linearised in the backing array of the innermost element type
+				inner, stride := arrInner(at.Elem())
+				return &Val{K: VAddr, T: in.Type(), Addr: &Addr{Kind: AElem, Base: x.Addr.Base, Idx: Add(x.Addr.Idx, Mul(i, IntLit(stride))), Key: "M$" + typeKey(inner), T: at.Elem(), ArrLen: ea.Len()}}
 			}
 			return &Val{K: VAddr, T: in.Type(), Addr: &Addr{Kind: AElem, Base: x.Addr.Base, Idx: Add(x.Addr.Idx, i), Key: "M$" + typeKey(at.Elem()), T: at.Elem()}}
 		}
